@@ -1,5 +1,6 @@
 import FinamModel.Output
 import FinamModel.Translated.Output__interpolate
+import FinamModel.Translated.Output__clear_data
 import FinamModel.Props.TrTime
 /-
   Equivalence of the translated `Output._interpolate` (regenerated from `finam/sdk/output.py`) with the
@@ -53,3 +54,151 @@ theorem tr_Output__interpolate {α} (p : Int × α) (r : List (Int × α)) (t : 
         simp [this]
 
 end Finam.Props.C08
+
+namespace Finam.Props.C09
+open Finam Finam.Py Finam.Props.C11
+
+/-- the eviction loop of `Output._clear_data` is `evict` (and the fuel `len + 1` is enough) -/
+theorem evict_while {α} (ci : List (Nat × Option Int)) (tmin : Int) : ∀ (fuel : Nat) (d : List (Int × α)), d.length < fuel →
+    Tr.Output__clear_data.while1 d ci tmin fuel = .ok (ofE (evict (toE d) tmin)) := by
+  intro fuel
+  induction fuel with
+  | zero => intro d h; omega
+  | succ fuel ih =>
+    intro d h
+    unfold Tr.Output__clear_data.while1
+    match d with
+    | [] => simp [evict, ofE]
+    | [p] => simp [evict, ofE]
+    | p :: q :: r =>
+      have hl : Py.len r + 1 + 1 > 1 := by have := len_nonneg r; omega
+      have hi : idx (p :: q :: r) 1 = .ok q := by simpa using idx_nat (p :: q :: r) 1 q (by simp)
+      simp only [len_cons, hl, if_true, hi, ok_bind, toE_cons, evict]
+      by_cases hc : q.1 ≤ tmin
+      · have := ih (q :: r) (by simp at h ⊢; omega)
+        simp only [toE_cons] at this
+        simp [hc, Py.pop0, this]
+      · simp [hc, ofE]
+        exact (ofE_toE r).symm
+
+/-- minimum as `minLast` computes it -/
+def rmin : Int → List Int → Int
+  | a, [] => a
+  | a, b :: r => if a ≤ rmin b r then a else rmin b r
+
+theorem rmin_imin (a b : Int) : ∀ r, rmin (Py.imin a b) r = (if a ≤ rmin b r then a else rmin b r) := by
+  intro r
+  induction r generalizing a b with
+  | nil =>
+    simp only [rmin, Py.imin]
+    by_cases h1 : b < a <;> by_cases h2 : a ≤ b <;> simp [h1, h2] <;> omega
+  | cons c r ih =>
+    simp only [rmin, Py.imin]
+    by_cases h1 : b < a <;> by_cases h2 : b ≤ rmin c r <;> by_cases h3 : a ≤ rmin c r <;> by_cases h4 : a ≤ b <;>
+      simp [h1, h2, h3, h4] <;> omega
+
+theorem foldl_rmin (a : Int) : ∀ xs, xs.foldl Py.imin a = rmin a xs := by
+  intro xs
+  induction xs generalizing a with
+  | nil => rfl
+  | cons b r ih => simp only [List.foldl_cons, ih, rmin_imin, rmin]
+
+theorem minLast_some (a : Int) : ∀ xs : List Int, minLast ((a :: xs).map some) = some (rmin a xs) := by
+  intro xs
+  induction xs generalizing a with
+  | nil => rfl
+  | cons b r ih =>
+    have := ih b
+    simp only [List.map_cons] at this ⊢
+    simp only [minLast, this, rmin]
+
+theorem allSome_spec : ∀ (vs : List (Option Int)),
+    (vs.any (fun t => decide (t.isNone = true)) = false → ∃ xs, vs = xs.map some ∧ Py.allSome vs = .ok xs ∧ Finam.allSome vs = true) ∧
+    (vs.any (fun t => decide (t.isNone = true)) = true → Finam.allSome vs = false) := by
+  intro vs
+  induction vs with
+  | nil => simp [Py.allSome, Finam.allSome]
+  | cons v vs ih =>
+    cases v with
+    | none => simp [Finam.allSome]
+    | some x =>
+      constructor
+      · intro h
+        have h' : vs.any (fun t => decide (t.isNone = true)) = false := by simpa using h
+        obtain ⟨xs, h1, h2, h3⟩ := ih.1 h'
+        refine ⟨x :: xs, by simp [h1], by simp [Py.allSome, h2, Except.map], ?_⟩
+        simpa [Finam.allSome] using h3
+      · intro h
+        have h' : vs.any (fun t => decide (t.isNone = true)) = true := by simpa using h
+        have := ih.2 h'
+        simpa [Finam.allSome] using this
+
+/-- `d[target] = v` on the `k`-th key of a dict with distinct keys: the values change at position `k` only -/
+theorem dictSet_values {ν} : ∀ (ci : List (Nat × ν)) (k : Nat) (target : Nat) (w : ν),
+    (ci.map Prod.fst).Nodup → (ci.map Prod.fst)[k]? = some target →
+    (Py.dictSet ci target w).map Prod.snd = (ci.map Prod.snd).set k w ∧
+    (Py.dictSet ci target w).map Prod.fst = ci.map Prod.fst := by
+  intro ci
+  induction ci with
+  | nil => intro k target w _ hk; simp at hk
+  | cons p ps ih =>
+    intro k target w hnd hk
+    obtain ⟨a, b⟩ := p
+    cases k with
+    | zero =>
+      simp at hk; subst hk
+      simp [Py.dictSet]
+    | succ k =>
+      have hne : ¬ a = target := by
+        intro e; subst e
+        simp only [List.map_cons, List.nodup_cons] at hnd
+        have : a ∈ ps.map Prod.fst := by
+          simp only [List.map_cons, List.getElem?_cons_succ] at hk
+          exact List.mem_of_getElem? hk
+        exact hnd.1 this
+      simp only [List.map_cons, List.nodup_cons] at hnd
+      simp only [List.map_cons, List.getElem?_cons_succ] at hk
+      obtain ⟨h1, h2⟩ := ih k target w hnd.2 hk
+      simp [Py.dictSet, hne, h1, h2]
+
+/-- **`Output._clear_data` is the bookkeeping step of the model's `stepImpl`**: the request is recorded for the
+    pulling end point, and once every end point has pulled the history is evicted up to the smallest recorded request. -/
+theorem tr_Output__clear_data {α} (d : List (Int × α)) (ci : List (Nat × Option Int)) (k target : Nat) (t : Int)
+    (hnd : (ci.map Prod.fst).Nodup) (hk : (ci.map Prod.fst)[k]? = some target) :
+    ∃ ci', Tr.Output__clear_data d ci t target = .ok (ci',
+        ofE (match minLast ((ci.map Prod.snd).set k (some t)) with
+             | some m => if Finam.allSome ((ci.map Prod.snd).set k (some t)) then evict (toE d) m else toE d
+             | none => toE d)) ∧
+      ci'.map Prod.snd = (ci.map Prod.snd).set k (some t) ∧ ci'.map Prod.fst = ci.map Prod.fst := by
+  obtain ⟨hv, hf⟩ := dictSet_values ci k target (some t) hnd hk
+  refine ⟨Py.dictSet ci target (some t), ?_, hv, hf⟩
+  unfold Tr.Output__clear_data
+  simp only [hv]
+  have hspec := allSome_spec ((ci.map Prod.snd).set k (some t))
+  cases hany : ((ci.map Prod.snd).set k (some t)).any (fun t => decide (t.isNone = true)) with
+  | true =>
+    have hall := hspec.2 hany
+    simp only [if_true, hall]
+    cases minLast ((ci.map Prod.snd).set k (some t)) <;> simp [ofE, ofE_toE]
+  | false =>
+    obtain ⟨xs, h1, h2, h3⟩ := hspec.1 hany
+    have hne : xs ≠ [] := by
+      intro e; subst e
+      have hlen := congrArg List.length h1
+      have hkl : k < (ci.map Prod.fst).length := by
+        cases Nat.lt_or_ge k (ci.map Prod.fst).length with
+        | inl h => exact h
+        | inr hc =>
+          have := List.getElem?_eq_none hc
+          rw [this] at hk; cases hk
+      simp only [List.length_set, List.length_map, List.length_nil] at hlen hkl
+      omega
+    cases xs with
+    | nil => exact absurd rfl hne
+    | cons x xs =>
+      have hmin : minLast ((ci.map Prod.snd).set k (some t)) = some (rmin x xs) := by rw [h1]; exact minLast_some x xs
+      simp only [Bool.false_eq_true, if_false, Py.minOptList, h2, ok_bind, Py.minList, foldl_rmin, hmin, h3, if_true]
+      have := evict_while (Py.dictSet ci target (some t)) (rmin x xs) (Int.toNat (Py.len d) + 1) d (by simp [Py.len])
+      simp [this]
+
+end Finam.Props.C09
